@@ -184,6 +184,11 @@ impl ServiceControl for ServiceController {
         );
         let system = System::new_all();
         for (pid, process) in system.processes() {
+            // on Linux every thread of a process is listed with the executable of the process: the id
+            // of a thread is not the PID of the service
+            if process.thread_kind().is_some() {
+                continue;
+            }
             if let Some(path) = process.exe() {
                 if bin_path == path {
                     // There does not seem to be any easy way to get the process ID from the `Pid`
